@@ -34,9 +34,8 @@ USES_JAX = True
 RULE = (
     "records: BFS over op histories {start_new_episode, stop_episode(1|2), record_stat(key a|b, episode None|explicit, "
     "step None|explicit)} applied simultaneously to stand-alone MemoryLogger/StandardLogger and to a LoggerList of five "
-    "members; canonical state = every logger's counters and (value, episode, step) lists (wall-clock dropped); the search "
-    "is partitioned by history prefix, so `states` is the sum over partitions (a state reachable from two prefixes is "
-    "counted in both). cadence: every non-decreasing step sequence / increment vector / key pattern / epoch count within "
+    "members; canonical state = every logger's counters and (value, episode, step) lists (wall-clock dropped); one search "
+    "in one process, so every state and transition is counted once. cadence: every non-decreasing step sequence / increment vector / key pattern / epoch count within "
     "the stated bounds, one evaluation = one oracle comparison (one logger after one op, one get_stat, one record_epoch "
     "decision, one restored path). non-trivial = a record transition taken when a counter is non-zero or the key already "
     "holds a record (defaults and order can show), or a record_epoch whose step advanced or sits on an exact multiple "
@@ -102,13 +101,8 @@ def rec_ops(seed):
 def items(tier, seed):
     quick = tier == "quick"
     out = []
-    # -- A: record histories --------------------------------------------------------------
-    depth = 5 if quick else 7
-    plen = 2
-    ops = rec_ops(seed)
-    out.append(dict(name="rec-root", part="rec", prefix=[], depth=plen, seed=seed))
-    for pi, prefix in enumerate(itertools.product(ops, repeat=plen)):
-        out.append(dict(name=f"rec-p{pi:03d}", part="rec", prefix=[list(o) for o in prefix], depth=depth - plen, seed=seed))
+    # -- A: record histories: ONE search, so that every state / transition is counted exactly once ---------
+    out.append(dict(name="rec-bfs", part="rec", depth=5 if quick else 6, seed=seed))
     # -- B1: explicit non-decreasing step sequences ------------------------------------------
     L, S = (5, 12) if quick else (6, 15)
     ivs = [1, 2, 3, 5] if quick else [1, 2, 3, 4, 5, 7]
@@ -471,36 +465,24 @@ def rec_on_state(bd, hist):
 
 
 def work_rec(item, col):
-    prefix = [tuple(o) for o in item["prefix"]]
-
-    def make(c):
-        bd = make_rec_bundle(item, e1.NullCol())
-        for op in prefix:
-            rec_apply(bd, op)
-        bd.col = c
-        return bd
-
-    def on_state(bd, hist):
-        if prefix and not hist:
-            return  # the prefix state itself is examined by the rec-root item
-        rec_on_state(bd, hist)
-
     res = e1.bfs(
-        make=lambda: make(col),
+        make=lambda: make_rec_bundle(item, col),
         ops=rec_ops_of,
         apply=rec_apply,
         canon=rec_canon,
-        on_state=on_state,
+        on_state=rec_on_state,
         max_depth=item["depth"],
         copier=_clone_bundle,
-        validate_make=lambda: make(e1.NullCol()),
+        validate_make=lambda: make_rec_bundle(item, e1.NullCol()),
     )
-    own = res["states"] - (1 if prefix else 0)
-    col.graph(own, res["transitions"], res["validated"], len(prefix) + res["max_depth"])
-    col.append("configurations", dict(name=item["name"], prefix=item["prefix"], states=own, transitions=res["transitions"], depth=len(prefix) + res["max_depth"]))
-    if res["paths"]:
-        deepest = max(res["paths"].values(), key=len)
-        col.sample(dict(part="rec", prefix=item["prefix"], history=[list(o) for o in deepest]))
+    col.graph(res["states"], res["transitions"], res["validated"], res["max_depth"])
+    by_depth = {}
+    for h in res["paths"].values():
+        by_depth[len(h)] = by_depth.get(len(h), 0) + 1
+    col.set("record_states_by_depth", {str(k): v for k, v in sorted(by_depth.items())})
+    col.set("record_search_closed", bool(res["fixpoint"]))
+    deepest = max(res["paths"].values(), key=len)
+    col.sample(dict(part="rec", history=[list(o) for o in deepest]))
 
 
 # =========================================================================================
